@@ -137,7 +137,7 @@ def dep_closure(types):
 
 def run(ctx: common.Ctx):
     info = pr.run_translator(ctx, common.REPO)
-    pr.report_source_facts(ctx, info, ["file_pp_calls_pure", "line_pp_reset_complete", "file_pp_source_matches_model", "generator_runs_file_pps_once_in_order", "no_unlisted_shared_containers", "no_undeclared_ambient_inputs", "line_buffer_per_call"])
+    pr.report_source_facts(ctx, info, ["file_pp_calls_pure", "line_pp_reset_complete", "file_pp_source_matches_model", "generator_runs_file_pps_once_in_order", "no_unlisted_shared_containers", "no_undeclared_ambient_inputs", "line_buffer_per_call", "memo_keys_determine_result", "memoised_functions_modelled"])
     drivers = ctx.prove(["C10"], exes=["tpl"])
     drv = drivers.get("tpl")
     rng = ctx.rng
@@ -562,6 +562,13 @@ def run(ctx: common.Ctx):
         if diffs:
             rel = diffs[0]
             where, d = shared.where_of_diff(m["lang"], base_out / rel, this_out / rel)
+            if where == "pickled-model-literal":
+                # the known classes must not hide a differing file whose literals disagree about something else
+                for r2 in diffs[1:]:
+                    w2, d2 = shared.where_of_diff(m["lang"], base_out / r2, this_out / r2)
+                    if w2 != "pickled-model-literal":
+                        rel, where, d = r2, w2, d2
+                        break
             rp = {"input": m["input"], "dsdl": snaps.get(m["input"]) if len(m["runs"]) == 1 else None, "lang": m["lang"], "options": m["extra"], "variant": m["variant"],
                   "transform": m["runs"][m["compare_run"]].get("transform"),
                   "n_runs_in_interpreter": len(m["runs"]), "file": rel, "n_differing_type_files": len(diffs), "first_differing_line": d,
